@@ -8,13 +8,14 @@ Steps (all in scratch locations outside /repo and /verif, removed afterwards):
   1. a scratch git worktree of /repo HEAD; the patch applies, the repo packages type-check (analyser loader) and build;
   2. the repository's baseline tests with the patch: every stable-pass test still passes;
   3. the demonstration passes on the clean worktree and fails with the patch;
-  4. every registered check is run against /repo with the patch applied (git apply / checkout), recording which ones report it.
+  4. every registered check is run against the scratch worktree with the patch applied (verifsa checkall), recording which ones report it.
 """
 import json, os, shutil, subprocess, sys, glob, re
 
 ENV = dict(os.environ, GOFLAGS="-mod=mod", GOPROXY="off", GOSUMDB="off", GOTOOLCHAIN="local", GOWORK="off")
-CW = "/tmp/confirm_wt"
-SC = "/tmp/confirm_scratch"
+BIN = os.environ.get("VERIFSA", "/verif/bin/verifsa")
+CW = os.environ.get("CONFIRM_WT", "/tmp/confirm_wt")
+SC = os.environ.get("CONFIRM_SC", "/tmp/confirm_scratch")
 
 
 def sh(cmd, cwd=None, timeout=1800):
@@ -83,7 +84,7 @@ def main():
         if code != 0:
             print("PATCH DOES NOT APPLY", out)
             return 1
-        code, out = sh("/verif/bin/verifsa check -property C18 -no-evidence -repo %s" % CW)
+        code, out = sh("%s check -property C18 -no-evidence -repo %s" % (BIN, CW))
         meta["ran"].append({"step": "all repo packages type-check with the patch (analyser loader)", "ok": code in (0, 1)})
         code2, out2 = sh("go build $(go list ./... | grep -v core/util$)", cwd=CW)
         meta["ran"].append({"step": "go build of the packages that build in this sandbox", "ok": code2 == 0, "output": out2.strip()[-300:]})
@@ -93,16 +94,16 @@ def main():
         meta["ran"].append({"step": "demonstration with the patch", "passes": ok_mut, "output_tail": tail_mut})
         confirmed = ok_clean and not ok_mut and not missing and code in (0, 1)
         meta["confirmed"] = confirmed
+        # which checks report it: all 20 checks on the scratch worktree with the patch applied
+        codeA, outA = sh("%s checkall -repo %s" % (BIN, CW))
     finally:
         sh("git -C /repo worktree remove --force %s" % CW)
         shutil.rmtree(CW, ignore_errors=True)
-    # which checks report it (on /repo itself, restored right after)
-    code, out = sh("/verif/tools/try_seed.sh %s" % patch)
-    caught = re.findall(r"^== (C\d+) exit=1", out, re.M)
-    infra = re.findall(r"^== (C\d+) exit=2", out, re.M)
-    meta["checks_reporting_it"] = sorted(caught)
-    meta["checks_with_infrastructure_failure"] = sorted(infra)
-    meta["first_reports"] = [l for l in out.splitlines() if l.startswith(("VIOLATION", "UNDECIDED", "UNRESOLVED"))][:6]
+    m = re.search(r"^REPORTED-BY: ?(.*)$", outA, re.M)
+    caught = sorted(x for x in (m.group(1).split(",") if m else []) if x)
+    meta["checks_reporting_it"] = caught
+    meta["checks_with_infrastructure_failure"] = [] if m else ["all"]
+    meta["first_reports"] = [re.sub(r"^\s+C\d+: ", "", l)[:400] for l in outA.splitlines() if re.match(r"\s+C\d+: (VIOLATION|UNDECIDED|UNRESOLVED)", l)][:6]
     dst = os.path.join("/verif/seeded", sid)
     shutil.rmtree(dst, ignore_errors=True)
     os.makedirs(dst)
